@@ -506,7 +506,7 @@ func permutations(n int, f func(p []int)) {
 }
 
 func main() {
-	tr.Main("heapq histories built in phases against a shadow queue (ascending, descending, zig-zag and random insertion runs reaching 4-6 heap levels, interior Remove by index and by reported position followed by full drains, Reorder and Set mid-life, NewWithData adoption, Clear/New, negative and out-of-range Remove/Peek, Front/Pop on empty, Each with early stop; key ranges from 3 (many duplicates) to 1000; C05 also repeats whole elements, C06 keeps payloads distinct); exhaustive small scopes: every insertion order of 1..5 then drain, every permutation of 1..6 through Set then Remove(i) for every i then drain, every permutation of 1..5 through NewWithData in both directions; heapq.Sort on random slices of length 0..40 in both directions. Non-trivial: the history held at least 8 elements at some point, or a Sort of at least 2 elements.",
+	tr.Main("heapq histories built in phases against a shadow queue (ascending, descending, zig-zag and random insertion runs reaching 4-6 heap levels, interior Remove by index and by reported position followed by full drains, Reorder and Set mid-life, NewWithData adoption, Clear/New, negative and out-of-range Remove/Peek, Front/Pop on empty, Each with early stop; key ranges from 3 (many duplicates) to 1000; C05 also repeats whole elements, C06 keeps payloads distinct); exhaustive small scopes: every insertion order of 1..5 then drain, every heap-ordered array of 5..7 (thorough 5..9) distinct keys through Set then Remove(i) for every i then drain, every permutation of 1..5 (thorough 1..6) through Set then Remove(i) then drain, every permutation of 1..5 through NewWithData in both directions; heapq.Sort on random slices of length 0..40 in both directions. Non-trivial: the history held at least 8 elements at some point, or a Sort of at least 2 elements.",
 		exec, func(g *tr.G) {
 			dup := g.Prop != "C06"
 			// exhaustive small scopes
@@ -518,16 +518,33 @@ func main() {
 				ops = append(ops, "p", "p", "p", "p", "p", "p")
 				g.Emit("H "+strings.Join(ops, ";"), false, "exhaustive-add5")
 			})
-			permutations(6, func(p []int) {
+			// Set of an array that already is a heap (so Set leaves the layout alone), Remove at every
+			// index, then drain: sizes 5..7 (quick), 5..9 (thorough).  Size 7 is the smallest that
+			// shows finding F2 through a non-minimal Pop.
+			for n := 5; n <= g.Scale(7, 9); n++ {
+				permutations(n, func(p []int) {
+					for i := 1; i < n; i++ {
+						if p[(i-1)/2] > p[i] {
+							return
+						}
+					}
+					es := make([]E, n)
+					for i, k := range p {
+						es[i] = E{k, i + 1}
+					}
+					for i := 0; i < n; i++ {
+						g.Emit("H s"+elems(es)+";r"+strconv.Itoa(i)+strings.Repeat(";p", n), false, "exhaustive-setheap-remove", "interior-remove", "drain", "set")
+					}
+				})
+			}
+			// every permutation of 1..5 (thorough: 1..6) through Set, one Remove, drain
+			permutations(g.Scale(5, 6), func(p []int) {
 				es := make([]E, len(p))
 				for i, k := range p {
 					es[i] = E{k, i + 1}
 				}
-				for i := 0; i < 6; i++ {
-					if g.Tier != "thorough" && (i+p[0])%2 == 0 {
-						continue
-					}
-					g.Emit("H s"+elems(es)+";r"+strconv.Itoa(i)+";p;p;p;p;p;p", false, "exhaustive-set6-remove", "interior-remove", "drain", "set")
+				for i := 0; i < len(p); i++ {
+					g.Emit("H s"+elems(es)+";r"+strconv.Itoa(i)+strings.Repeat(";p", len(p)), false, "exhaustive-set-remove", "interior-remove", "drain", "set")
 				}
 			})
 			permutations(5, func(p []int) {
